@@ -44,12 +44,12 @@ package cache
 
 // Range (C19): every element the map shows to the adapter is passed on to f with its own value and
 // expiry; f's error is returned unchanged and the element is neither replaced nor deleted.
-//@ func (c *Cache) Range$1 [C19]
+//@ func (c *Cache) Range$cf [C19]
 //@   requires v != nil
 //@   modifies *
 //@   ensures calls(f) == 1 && arg(f, 0, 0) == key && arg(f, 0, 1) == old(v.v) && arg(f, 0, 2) == old(v.expirationTime)
 //@   ensures result_3 == ret(f, 0) && !result_1 && !result_2
-//@ func paramfn:Range$1.f
+//@ func paramfn:Range$cf.f
 //@   modifies *
 //@ func (c *Cache) Range [C19]
 //@   log cacheRange
